@@ -68,9 +68,50 @@ def canon_ts(sim, ts):
     return ["ok", info_state, legal, cur, rewards, st]
 
 
+RUNTIME_FAILURES = []
+
+
+class _HookedOS(OpenSpielWrapper):
+    """the documented hook `get_legal_actions` overridden (it "can be overwritten in a derived class"): the same
+    answer, except that it fails ONCE when armed (round 6)"""
+    fault_armed = False
+    fault_fired = False
+
+    def get_legal_actions(self, agent_id):
+        if self.fault_armed:
+            self.fault_armed, self.fault_fired = False, True
+            raise RuntimeError("injected fault: the legal actions could not be computed just now")
+        return super().get_legal_actions(agent_id)
+
+
+def _interrupted_terminal_step(env, sim, actions):
+    """round 6, after a play-through that stopped in mid-episode (nothing here reaches the model): one more step in
+    which the legal-action hook fails once.  If that step was the TERMINAL one (the simulation has declared itself
+    finished), the episode is over whatever the caller saw of it: the next step must start a new episode (FIRST), not
+    play on in the finished one or hand out fake steps for ever ("... and let it finish")."""
+    env.fault_armed, env.fault_fired = True, False
+    st, _ = mgr.guarded(lambda: env.step(list(actions)))
+    env.fault_armed = False
+    if st == "ok" or not env.fault_fired:
+        return None
+    try:
+        over = bool(sim.get_all_done())
+    except Exception:  # noqa: BLE001
+        return None
+    if not over:
+        return None
+    st, ts = mgr.guarded(lambda: env.step(list(actions)))
+    if st != "ok":
+        return "after the terminal step was interrupted (get_legal_actions failed once) the next step raised: %s" % st
+    if ts.step_type != StepType.FIRST:
+        return ("after the terminal step was interrupted (get_legal_actions failed once) the next step did not start a "
+                "new episode: step type %s" % ts.step_type)
+    return None
+
+
 def run_os(kind, script, calls, budget=None):
     sim, manager, trace = _mk(kind, script, True)
-    env = OpenSpielWrapper(manager)
+    env = _HookedOS(manager)
     out = []
     for c in calls:
         before = len(trace)
@@ -85,6 +126,12 @@ def run_os(kind, script, calls, budget=None):
         out.append([res, ents])
         if st not in ("ok", "rejected"):
             break
+    if out and out[-1][0][0] == "ok" and out[-1][0][5] != "last" and calls and calls[len(out) - 1][0] == "s":
+        what = _interrupted_terminal_step(env, sim, calls[len(out) - 1][1])
+        if what:
+            RUNTIME_FAILURES.append((what, {"adapter": "ospiel", "kind": kind, "script": script,
+                                            "calls": [list(c) for c in calls[:len(out)]],
+                                            "after_history": "interrupted_terminal_step"}))
     return out
 
 
@@ -205,6 +252,14 @@ class AdapterProp(core.Prop):
         if any(it[0][0] == "ok" and not it[1] for it in tr):
             tags.append("fake-step")
         return core.Case(desc, line, wire.enc(tr), key=json.dumps(desc, sort_keys=True), nontrivial=early, tags=tags)
+
+    def extra_checks(self, tier, rng, report):
+        seen = set()
+        for what, desc in RUNTIME_FAILURES:
+            if what.split(":")[0] not in seen:
+                seen.add(what.split(":")[0])
+                report.runtime_failure(what, desc)
+        report.notes["interrupted_terminal_step_failures"] = len(RUNTIME_FAILURES)
 
     def _osx_case(self, kind, script, calls=None, session=None, shadow=False):
         """a case of the setter alphabet, from a finished session (generator) or from its calls (replay)"""
